@@ -40,6 +40,8 @@ pub fn profile() -> Profile {
     p.private = 5;
     p.workgroup = 3;
     p.unused_structs = (0, 1);
+    p.vin_as_storage = 2;
+    p.out_as_storage = 1;
     p
 }
 
